@@ -18,7 +18,8 @@ class RCFG:
     def __init__(self):
         self.nodes: List[Node] = []
         self.load_counter = 0
-        self.opaque_vars = set()    # variables touched through Ref / DynSet (excluded from obligations)
+        self.opaque_vars = set()    # variables touched through Ref / DynSet (excluded from obligations unless alias_stores)
+        self.dyn_targets: Dict[str, set] = {}   # dynamic variable -> variables it is ever pointed at
 
     def new(self, kind="nop", var=None, site=None) -> Node:
         n = Node(len(self.nodes), kind, var, site)
@@ -26,10 +27,29 @@ class RCFG:
         return n
 
 
-def build_routine(body, rcfg: Optional[RCFG] = None, conservative: bool = False) -> Tuple[RCFG, int]:
+def _dyn_targets(body) -> Dict[str, set]:
+    out: Dict[str, set] = {}
+
+    def visit(e):
+        if isinstance(e, (tuple, list)):
+            if e and e[0] == "DynSet":
+                out.setdefault(e[1], set()).add(e[2])
+            for c in e:
+                visit(c)
+    visit(body)
+    return out
+
+
+def build_routine(body, rcfg: Optional[RCFG] = None, conservative: bool = False, alias_stores: bool = False) -> Tuple[RCFG, int]:
     """-> (graph, entry node id).  Load sites are numbered in the order the builder
-    (recipe/build.py) visits Load forms, which is the same depth-first left-to-right order."""
+    (recipe/build.py) visits Load forms, which is the same depth-first left-to-right order.
+
+    alias_stores: every event through which a variable MAY be written indirectly counts as a store of
+    it (a call that receives it by reference; a store through a dynamic variable that is pointed at it
+    anywhere in the routine).  Over-approximating stores only removes unwritten paths, so the
+    "must reject" obligations derived from this graph stay sound."""
     g = rcfg or RCFG()
+    g.dyn_targets = _dyn_targets(body)
     entry = g.new()
     exitn = g.new("exit")
     loops: List[Tuple[Node, Node]] = []   # (continue target, break target)
@@ -54,6 +74,14 @@ def build_routine(body, rcfg: Optional[RCFG] = None, conservative: bool = False)
         if k in ("DynSet",):
             g.opaque_vars.add(e[2])
             return cur
+        if k == "DynStore" and alias_stores:
+            c = seq(cur, e[2])
+            for v in sorted(g.dyn_targets.get(e[1], ())):
+                n = g.new("store", v)
+                if c is not None:
+                    c.succ.append(n.id)
+                    c = n
+            return c
         if k in ("Return", "Approve", "Reject", "Err"):
             c = cur
             if k == "Return" and len(e) > 1 and e[1] is not None:
@@ -157,13 +185,21 @@ def build_routine(body, rcfg: Optional[RCFG] = None, conservative: bool = False)
             return seq(c, e[3])
         if k == "Call":
             c = cur
+            refs = []
             for a in e[2:]:
                 if a[0] == "Ref":
                     g.opaque_vars.add(a[1])
+                    refs.append(a[1])
                 elif a[0] == "PRef":
                     pass
                 else:
                     c = seq(c, a)
+            if alias_stores:
+                for v in refs:          # the callee may write the variable
+                    n = g.new("store", v)
+                    if c is not None:
+                        c.succ.append(n.id)
+                        c = n
             return c
         if k == "WideRatio":
             c = cur
